@@ -18,6 +18,8 @@ struct G<'a> {
     rng: &'a mut Rng,
     thorough: bool,
     cmds: Vec<Value>,
+    /// parallel width of the factory picked last (byte lengths are scaled to it)
+    cur_w: usize,
 }
 
 fn type_max(t: &str) -> u128 {
@@ -38,9 +40,10 @@ impl<'a> G<'a> {
             if !f.supports(kind) {
                 continue;
             }
-            if f.bs() > 48 && !self.rng.chance(1, if self.thorough { 3 } else { 6 }) {
+            if f.bs() > 48 && !self.rng.chance(1, if self.thorough { 2 } else { 3 }) {
                 continue;
             }
+            self.cur_w = f.w();
             return i;
         }
     }
@@ -63,18 +66,23 @@ impl<'a> G<'a> {
     fn unit(&self, i: usize, kind: &str) -> usize {
         if kind == "cfb8" { 1 } else { self.bs(i) }
     }
-    /// number of blocks with a bias towards 0, 1, W, W+1, 2W, 2W+tail
+    /// number of blocks with a bias towards 0, 1, W-1, W, W+1, 2W, 2W+1, 3W+2 (full groups + tails);
+    /// `max` is a soft cap that is raised so that at least two full groups and a tail fit
     fn nblocks(&mut self, w: usize, max: usize) -> usize {
-        let c = [0, 1, 2, w, w + 1, 2 * w, 2 * w + 1, 3 * w + 2];
-        let n = if self.rng.chance(1, 2) { *self.rng.pick(&c) } else { self.rng.range(0, max) };
-        n.min(max)
+        let cap = max.max(3 * w + 2).min(100);
+        let c = [0, 1, 2, w.saturating_sub(1), w, w + 1, 2 * w, 2 * w + 1, 3 * w + 2];
+        let n = if self.rng.chance(1, 2) { *self.rng.pick(&c) } else { self.rng.range(0, cap.min(2 * w + 3).max(max)) };
+        n.min(cap)
     }
-    /// byte length biased around multiples of bs
-    fn nbytes(&mut self, bs: usize, maxblocks: usize) -> usize {
-        let k = self.rng.range(0, maxblocks);
+    /// byte length biased around multiples of bs; long enough for full parallel groups of width w
+    fn nbytes_w(&mut self, bs: usize, w: usize, maxblocks: usize) -> usize {
+        let k = if self.rng.chance(1, 3) { self.nblocks(w, maxblocks) } else { self.rng.range(0, maxblocks) };
         let d = *self.rng.pick(&[0usize, 0, 1, bs - 1, bs / 2, 2]);
-        let n = k * bs + d.min(bs.saturating_sub(1));
-        n.min(maxblocks * bs + bs - 1)
+        k * bs + d.min(bs.saturating_sub(1))
+    }
+    fn nbytes(&mut self, bs: usize, maxblocks: usize) -> usize {
+        let w = self.cur_w;
+        self.nbytes_w(bs, w, maxblocks)
     }
     fn composition(&mut self, n: usize, maxpart: usize, zeros: bool) -> Vec<usize> {
         let mut v = vec![];
@@ -121,7 +129,7 @@ impl<'a> G<'a> {
         }
     }
     fn sched_bytes(&mut self, o: &str, n: usize, bs: usize, b2b: Option<bool>, export: bool) {
-        for k in self.composition(n, 2 * bs + 1, true) {
+        for k in self.composition(n, (2 * bs + 1).max(n / 5), true) {
             let b = b2b.unwrap_or_else(|| self.rng.coin());
             self.bytes(o, k, b);
             if export && self.rng.chance(1, 3) {
@@ -157,6 +165,35 @@ impl<'a> G<'a> {
     }
 }
 
+/// (kind, dir) of a block-level mode; half of the time one whose decrypt direction has a hand-written
+/// parallel body (cbc, cfb)
+fn block_kind_dir(g: &mut G) -> (&'static str, &'static str) {
+    if g.rng.chance(2, 5) {
+        (*g.rng.pick(&["cbc", "cfb"]), "dec")
+    } else {
+        (*g.rng.pick(&BLOCK_KINDS), if g.rng.coin() { "enc" } else { "dec" })
+    }
+}
+
+/// pick a kind from `kinds`, favouring the ones whose code has hand-written parallel bodies:
+/// cbc/cfb decryption (direction forced), keystream cores, ciphertext stealing
+fn pick_kind(g: &mut G, kinds: &[String]) -> (String, Option<&'static str>) {
+    let r = g.rng.below(10);
+    if r < 3 {
+        let c: Vec<&String> = kinds.iter().filter(|k| *k == "cbc" || *k == "cfb").collect();
+        if !c.is_empty() {
+            return ((*g.rng.pick(&c)).clone(), Some("dec"));
+        }
+    }
+    if r < 5 {
+        let c: Vec<&String> = kinds.iter().filter(|k| k.ends_with("core") || CTS_KINDS.contains(&k.as_str())).collect();
+        if !c.is_empty() {
+            return ((*g.rng.pick(&c)).clone(), None);
+        }
+    }
+    (g.rng.pick(kinds).clone(), None)
+}
+
 fn core_of(k: &str) -> String {
     format!("{k}core")
 }
@@ -167,7 +204,7 @@ fn is_block(k: &str) -> bool {
 }
 
 pub fn generate(prop: &str, tier: &str, facs: &[Box<dyn Factory>], rng: &mut Rng, _i: usize) -> Value {
-    let mut g = G { facs, rng, thorough: tier == "thorough", cmds: vec![] };
+    let mut g = G { facs, rng, thorough: tier == "thorough", cmds: vec![], cur_w: 1 };
     match prop {
         "C01" => gen_c01(&mut g),
         "C02" => gen_conf(&mut g, &["cbc", "pcbc", "ige"]),
@@ -199,7 +236,7 @@ fn gen_c01(g: &mut G) {
     match choice {
         0..=3 => {
             // block-level pair, possibly different widths on the two sides
-            let kind = *g.rng.pick(&BLOCK_KINDS);
+            let kind = block_kind_dir(g).0;
             let f = g.pick_fac(kind);
             let fs = g.same_fn(f, kind);
             let fd = *g.rng.pick(&fs);
@@ -276,7 +313,7 @@ fn gen_conf(g: &mut G, kinds: &[&str]) {
     let kind = *g.rng.pick(kinds);
     let f = g.pick_fac(kind);
     let (bs, w) = (g.bs(f), g.w(f));
-    let dir = if g.rng.coin() { "enc" } else { "dec" };
+    let dir = if (kind == "cbc" || kind == "cfb") && g.rng.chance(2, 3) { "dec" } else if g.rng.coin() { "enc" } else { "dec" };
     match kind {
         "cfbbuf" => {
             g.new_obj("a", f, kind, dir, 0, json!({"rand":0}), json!({"rand":0}), "inner");
@@ -386,11 +423,11 @@ fn gen_c07(g: &mut G) {
     for k in CTS_KINDS {
         kinds.push(k.to_string());
     }
-    let kind = g.rng.pick(&kinds).clone();
+    let (kind, fdir) = pick_kind(g, &kinds);
     let f = g.pick_fac(&kind);
     let fs = g.same_fn(f, &kind);
     let bs = g.bs(f);
-    let dir = if kind.ends_with("core") { "ks" } else if g.rng.coin() { "enc" } else { "dec" };
+    let dir = if kind.ends_with("core") { "ks" } else if let Some(d) = fdir { d } else if g.rng.coin() { "enc" } else { "dec" };
     let b2b = g.rng.coin();
     let iv = g.iv_for(&kind, 0);
     let wmax = fs.iter().map(|&i| g.w(i)).max().unwrap();
@@ -459,11 +496,11 @@ fn gen_c08(g: &mut G) {
     let nobj = g.rng.range(2, 4);
     let mut plans: Vec<Vec<usize>> = vec![vec![n]];
     for j in 1..nobj {
-        let maxp = if j == 1 { (n / 24).max(1) } else { 2 * bs + 1 };
+        let maxp = if j == 1 { (n / 24).max(1) } else { (2 * bs + 1).max(n / 5) };
         plans.push(g.composition(n, maxp, true));
     }
     // one plan ends pieces exactly on block boundaries followed by a short one
-    if nobj > 2 && n > bs {
+    if nobj > 2 && n > bs && n <= 12 * bs {
         let mut p = vec![];
         let mut left = n;
         while left > 0 {
@@ -503,7 +540,7 @@ fn gen_c09(g: &mut G) {
         kinds.push(core_of(k));
         kinds.push(k.to_string());
     }
-    let kind = g.rng.pick(&kinds).clone();
+    let (kind, fdir) = pick_kind(g, &kinds);
     let f = g.pick_fac(&kind);
     let (bs, w) = (g.bs(f), g.w(f));
     let iv = g.iv_for(&kind, 0);
@@ -516,7 +553,7 @@ fn gen_c09(g: &mut G) {
         g.sched_bytes("a", k, bs, Some(false), false);
         g.cmds.push(json!({"op":"import","o":"b","from":"a"}));
         let n = g.nbytes(bs, 3);
-        let p1 = g.composition(n, 2 * bs, true);
+        let p1 = g.composition(n, (2 * bs).max(n / 5), true);
         for x in p1 {
             g.bytes("a", x, false);
         }
@@ -529,7 +566,7 @@ fn gen_c09(g: &mut G) {
         }
         return;
     }
-    let dir = if kind.ends_with("core") { "ks" } else if g.rng.coin() { "enc" } else { "dec" };
+    let dir = if kind.ends_with("core") { "ks" } else if let Some(d) = fdir { d } else if g.rng.coin() { "enc" } else { "dec" };
     let mul = if kind == "cfb8" { 2 } else { 1 };
     if is_block(&kind) && g.rng.chance(1, 3) {
         // encryptor and matching decryptor report equal states after corresponding data
@@ -690,7 +727,7 @@ fn gen_c12(g: &mut G) {
     }
     kinds.push("async".into());
     kinds.push("padded".into());
-    let mut kind = g.rng.pick(&kinds).clone();
+    let (mut kind, fdir) = pick_kind(g, &kinds);
     let mut how = "";
     if kind == "async" {
         kind = g.rng.pick(&["cfb", "cfb8"]).to_string();
@@ -703,7 +740,7 @@ fn gen_c12(g: &mut G) {
     }
     let f = g.pick_fac(&kind);
     let (bs, w) = (g.bs(f), g.w(f));
-    let dir = if kind.ends_with("core") || ctr_bits(&kind).is_some() || kind == "ofb" { "ks" } else if g.rng.coin() { "enc" } else { "dec" };
+    let dir = if kind.ends_with("core") || ctr_bits(&kind).is_some() || kind == "ofb" { "ks" } else if let Some(d) = fdir { d } else if g.rng.coin() { "enc" } else { "dec" };
     let iv = g.iv_for(&kind, 0);
     g.new_obj("p", f, &kind, dir, 0, iv.clone(), json!({"rand":0}), "inner");
     g.new_obj("q", f, &kind, dir, 0, iv, json!({"rand":0}), "inner");
@@ -726,7 +763,7 @@ fn gen_c12(g: &mut G) {
     let bytelevel = !kind.ends_with("core") && !is_block(&kind);
     if bytelevel {
         let n = g.nbytes(bs, 5);
-        for k in g.composition(n, 2 * bs + 1, true) {
+        for k in g.composition(n, (2 * bs + 1).max(n / 5), true) {
             g.bytes("p", k, false);
             g.bytes("q", k, true);
         }
@@ -1123,8 +1160,8 @@ fn gen_c16(g: &mut G) {
     // re-create the clone with a spliced source so that it sees different data after the clone point
     g.cmds.pop();
     g.cmds.push(json!({"op":"clone","o":"c","from":"o","src":{"rand":3}}));
-    let p2 = g.composition(n2, if bytelevel { 2 * bs } else { w + 2 }, bytelevel);
-    let p3 = g.composition(n3, if bytelevel { 2 * bs } else { w + 2 }, bytelevel);
+    let p2 = g.composition(n2, if bytelevel { (2 * bs).max(n2 / 4) } else { w + 2 }, bytelevel);
+    let p3 = g.composition(n3, if bytelevel { (2 * bs).max(n3 / 4) } else { w + 2 }, bytelevel);
     let (mut i2, mut i3) = (0, 0);
     while i2 < p2.len() || i3 < p3.len() {
         let pick_o = i3 >= p3.len() || (i2 < p2.len() && g.rng.coin());
